@@ -122,6 +122,11 @@ def d_kw(kw):
     return "".join(" %s=%s" % (k, d_arg(e)) for k, e in kw)
 
 
+def d_kw_stock(kw):
+    """keyword arguments of a STOCK Django tag ({% include ... with k=v %}): a quoted string is a literal there"""
+    return "".join(" %s=%s" % (k, d_expr(e)) for k, e in kw)
+
+
 def d_tpls(ts, dynamic=False):
     return "".join(d_tpl(t, dynamic) for t in ts)
 
